@@ -25,7 +25,7 @@ CHECKS = {
    text="Queue histories are cut at every I/O boundary with pending-write subsets; the reopened queue must contain exactly events [a,b) with a/b in the windows allowed by completed and in-progress ACKs/flushes.",
    note="Same disk assumptions as C01."),
  "C07": dict(level="exploration", ref="6/C07", technique="deterministic simulation: twin execution (history with vs without an aborted transaction) comparing state, free page sets and continuation outcomes",
-   text="Run A executes prefix, an aborted transaction (rollback/close/failed commit) and a continuation; run B omits the aborted transaction. Readable state, free-page sets, end markers, meta totals, continuation outcomes and post-reopen state must be identical.",
+   text="Run A executes prefix, an aborted transaction (rollback/close/commit failing from out of space or from a write error/short write injected right before that commit) and a continuation; run B omits the aborted transaction. Readable state, free-page sets, end markers, meta totals, continuation outcomes and post-reopen state must be identical.",
    note="Free space compared as page sets. Seeded sampling."),
  "C08": dict(level="fault_enumeration", ref="6/C08", technique="deterministic simulation: I/O fault plans (kind x call index x burst) aimed at calls of a dry run; model oracle, durable-image oracle, deadlock detection, bounded liveness",
    text="Write/short-write/sync/truncate/size/mmap failures are injected at chosen call indices with bursts; operations must fail cleanly, transactions keep seeing the last committed state, successful commits are durable, and after faults stop a commit succeeds within two attempts; reopen shows the committed state or a complete later attempt whose only failure was the final sync.",
@@ -40,13 +40,13 @@ CHECKS = {
    text="On bounded files without overflow the capacity probe plus live plus meta area plus two headers must equal max pages at every quiescent point; the partition must cover the file; the simulated file never exceeds max size; FileStats match the snapshot.",
    note="Capacity measured by allocating until OutOfMemory inside a rolled-back transaction."),
  "C12": dict(level="exploration", ref="6/C12", technique="deterministic simulation: fill/drain cycles of the queue on small bounded simulated files with event model, space bound and no-drift oracle",
-   text="Producer fills until error, consumer drains and ACKs; FIFO/byte-exact delivery, reads and ACKs succeed on a full file, flush succeeds after space is freed, and allocated pages stay within the un-ACKed events plus a constant with no drift across cycles.",
+   text="Producer fills until error, consumer drains and ACKs, some reopens change the file limit (FlagUpdMaxSize); FIFO/byte-exact delivery, reads and ACKs succeed on a full file, flush succeeds after space is freed, and allocated pages stay within the un-ACKed events plus a constant with no drift across cycles.",
    note="Constant is generous; drift check is the sharp detector."),
  "C13": dict(level="exploration", ref="6/C13", technique="deterministic simulation: two-task schedule exploration of producer and consumer with FIFO oracle and porcupine linearizability check of the recorded history",
    text="Producer and consumer tasks interleave at every hook and disk call; the consumer must see the produced sequence; the Flush/Next/ACK history must linearize against a sequential counter model; no deadlock.",
    note="Race clause via -race side mode."),
  "C14": dict(level="exploration", ref="6/C14", technique="deterministic simulation: reopen with changed max size inside seeded histories, model oracle, idle-lock/liveness check and crash images of the open-time transactions",
-   text="Prior history, reopen with FlagUpdMaxSize (grow/shrink/unbounded, prealloc), further history and a plain reopen; contents intact, Begin/BeginReadonly do not block, capacity changes by exactly the added pages, extent respects the shrunken limit.",
+   text="Prior history (a quarter of the bounded runs with metadata in the overflow area past the limit), reopen with FlagUpdMaxSize (grow/shrink/unbounded, prealloc), further history and a plain reopen; contents intact, Begin/BeginReadonly do not block, capacity changes by exactly the added pages, extent respects the shrunken limit.",
    note="Seeded sampling of (old,new,prealloc) combinations."),
  "C15": dict(level="exploration", ref="6/C15", technique="deterministic simulation: exhaustive misuse matrix injected at seeded points of simulated histories (incl. fault-induced receiver states), with no-panic/no-block/no-change oracle",
    text="At seeded points the full method x receiver-state matrix is executed under recover; each cell must return the documented error kind, not panic or block, and leave model state, running transaction and lock state unchanged.",
@@ -58,7 +58,7 @@ CHECKS = {
    text="After every queue operation Pending/Active/Available and the Flushed/ACKed callback totals are compared with the event model; also after reopen.",
    note="Seeded sampling."),
  "C18": dict(level="exploration", ref="6/C18", technique="seeded open/close/failing-open histories with injected init faults against a one-bit lock model on the real file system",
-   text="Sequences of open, failing open (invalid options, damaged headers, injected I/O failure) and close on one path; after every close or failed open an immediate open must succeed; concurrent open fails with a lock error or waits.",
+   text="Sequences of open, failing open (invalid options, damaged headers, injected I/O failure) and close on one path; after every close or failed open an immediate open must succeed; concurrent open fails with a lock error or waits; with two waiters of which one fails after locking the path stays locked for the other.",
    note="Uses real flock; the only non-simulated seam."),
 }
 
